@@ -661,6 +661,15 @@ impl<'a, B: BitmapSlice> VolatileSlice<'a, B> {
         };
     }
 
+    /// Returns the subslice holding an atomic integer of type `T` at `offset`, after checking
+    /// bounds and alignment. Unlike the reference returned by `get_atomic_ref`, the subslice can be
+    /// accessed through a pointer guard, i.e. also when the memory is only mapped on demand.
+    fn atomic_subslice<T: AtomicInteger>(&self, offset: usize) -> Result<Self> {
+        let slice = self.subslice(offset, size_of::<T>())?;
+        slice.check_alignment(align_of::<T>())?;
+        Ok(slice)
+    }
+
     /// Checks if the current slice is aligned at `alignment` bytes.
     fn check_alignment(&self, alignment: usize) -> Result<()> {
         // Check that the desired alignment is a power of two.
@@ -828,15 +837,25 @@ impl<B: BitmapSlice> Bytes<usize> for VolatileSlice<'_, B> {
     }
 
     fn store<T: AtomicAccess>(&self, val: T, addr: usize, order: Ordering) -> Result<()> {
-        self.get_atomic_ref::<T::A>(addr).map(|r| {
-            r.store(val.into(), order);
-            self.bitmap.mark_dirty(addr, size_of::<T>())
-        })
+        let slice = self.atomic_subslice::<T::A>(addr)?;
+        let guard = slice.ptr_guard_mut();
+
+        // SAFETY: `atomic_subslice` checked that the location is in bounds and suitably aligned
+        // for a `T::A`, and the memory stays mapped for as long as `guard` is alive.
+        let r = unsafe { &*(guard.as_ptr() as *const T::A) };
+        r.store(val.into(), order);
+        self.bitmap.mark_dirty(addr, size_of::<T>());
+        Ok(())
     }
 
     fn load<T: AtomicAccess>(&self, addr: usize, order: Ordering) -> Result<T> {
-        self.get_atomic_ref::<T::A>(addr)
-            .map(|r| r.load(order).into())
+        let slice = self.atomic_subslice::<T::A>(addr)?;
+        let guard = slice.ptr_guard();
+
+        // SAFETY: `atomic_subslice` checked that the location is in bounds and suitably aligned
+        // for a `T::A`, and the memory stays mapped for as long as `guard` is alive.
+        let r = unsafe { &*(guard.as_ptr() as *const T::A) };
+        Ok(r.load(order).into())
     }
 }
 
